@@ -145,6 +145,36 @@ where
         · exact absurd (by rw [h]) ha
         · exact lookup_isSome_of_mem rest sw h
 
+/-- The same for an exporter that writes the ports' signals first: the round trip is the identity on *that* layout. The importer is
+    the same function — it files signals by whether a port entry names them, wherever they stand. -/
+theorem module_roundtrip_ports_first (ctx : PRef → Option (List String)) (p : PModule) (h : ShapePF ctx p = true) :
+    ∃ m, importModule ctx p = .ok m ∧ exportModulePF m = .ok p := by
+  unfold ShapePF at h
+  simp only [Bool.and_eq_true, decide_eq_true_eq, List.all_eq_true] at h
+  obtain ⟨⟨⟨⟨⟨hsn, hpn⟩, hdirs⟩, hsplit⟩, hports⟩, hinst⟩ := h
+  have hd : ∀ q ∈ p.ports, q.2 ∈ protoDirs := hdirs
+  have hdecl : (p.ports.all fun q => (lookup q.1 p.signals).isSome) = true := by
+    rw [List.all_eq_true]
+    intro q hq
+    have hqm : q.1 ∈ (p.signals.filter (fun sw => isPort p sw.1)).map (·.1) := by
+      rw [hports]; exact List.mem_map.mpr ⟨q, hq, rfl⟩
+    obtain ⟨sw, hsw, hname⟩ := List.mem_map.mp hqm
+    have hin : sw ∈ p.signals := (List.mem_filter.mp hsw).1
+    rw [← hname]
+    exact module_roundtrip.lookup_isSome_of_mem p.signals sw hin
+  have hsigs : importSigs p = .ok (p.signals.map (imp p.ports)) := by
+    unfold importSigs
+    rw [if_pos hdecl, importSigList_eq p.ports hd]
+  obtain ⟨hi, hi1, hi2⟩ := insts_roundtrip ctx p.signals (target_roundtrip p.signals) p.instances
+    (by rw [List.all_eq_true]; exact hinst)
+  obtain ⟨fS, fN⟩ := filter_imp p hd p.signals
+  refine ⟨_, by unfold importModule; rw [hsigs, hi1], ?_⟩
+  unfold exportModulePF
+  simp only [fS, fN]
+  rw [exportPorts_imp p.ports hpn hd _ p.ports hports (fun x hx => hx), hi2]
+  simp only [← List.map_append, map_back]
+  rw [← hsplit]
+
 /-- What the importer makes of such a module, spelled out: the internal signals and the ports in two lists, each in the
     order of the package's signal list, every port with the direction of its port entry. -/
 theorem import_shape (ctx : PRef → Option (List String)) (p : PModule) (h : Shape ctx p = true) (m : HModule)
